@@ -22,7 +22,7 @@ def lnIn (c : Fn) (ln : Nat) : Bool := decide (c.first ≤ ln ∧ ln ≤ c.last)
 
 def inRange (c : Fn) : Stmt → Bool
   | .skip => true
-  | .simple ln | .fail ln _ | .ret ln | .retPar ln | .brk ln | .cont ln | .yld ln _ | .ext ln _ _ => lnIn c ln
+  | .simple ln | .fail ln _ | .ret ln | .retPar ln | .stopNoExc ln | .brk ln | .cont ln | .yld ln _ | .ext ln _ _ => lnIn c ln
   | .call ln f body => lnIn c ln && inRange f body
   | .seq a b => inRange c a && inRange c b
   | .tryFin ln body fin => lnIn c ln && inRange c body && inRange c fin
@@ -40,6 +40,7 @@ def extOK : Stmt → Bool
 
 def Out.isExc : Out → Bool
   | .exc _ => true
+  | .stop => true
   | _ => false
 
 /-- the statement emits nothing and ends normally -/
